@@ -399,6 +399,101 @@ func runMidicatHistory(c *mon.Ctx, r *mon.Rand, idx int64) {
 	checkMidicatHistory(c, h, desc, nports)
 }
 
+// runSlowCallbackHistory: a listener callback that stays busy for a long time (1.5 s) while stop()
+// is called. stop() must not return before the callback has finished or, if it does, at least the
+// port must stay usable: Listen directly after the returned stop must succeed and deliver.
+func runSlowCallbackHistory(c *mon.Ctx) {
+	dir := filepath.Join(c.Dir, fmt.Sprintf("mc-slow-%d", c.Shard))
+	os.MkdirAll(dir, 0o755)
+	defer os.RemoveAll(dir)
+	os.Setenv("VERIF_MC_DIR", dir)
+	os.Setenv("VERIF_MC_DELAY_US", "0")
+	drv, err := midicatdrv.New()
+	if err != nil {
+		c.Inconclusive("midicatdrv.New failed: " + err.Error())
+		return
+	}
+	ins, _ := drv.Ins()
+	outs, _ := drv.Outs()
+	h := &hist{}
+	desc := map[string]any{"history": "slow callback: Listen, deliver one message whose callback sleeps 1.5 s, call stop() meanwhile, Listen again, deliver"}
+	if ins[0].Open() != nil || outs[0].Open() != nil {
+		c.Violation("mc:open", "cannot open ports against the stand-in helper", desc, nil, nil)
+		return
+	}
+	defer ins[0].Close()
+	defer outs[0].Close()
+	var inCallback, callbackExit, entered int64
+	slow := int32(0)
+	stop, err := ins[0].Listen(func(msg []byte, ts int32) {
+		if atomic.CompareAndSwapInt32(&slow, 1, 2) {
+			atomic.StoreInt64(&entered, h.tick())
+			atomic.StoreInt64(&inCallback, 1)
+			time.Sleep(1500 * time.Millisecond)
+			atomic.StoreInt64(&callbackExit, h.tick())
+			atomic.StoreInt64(&inCallback, 0)
+		}
+	}, drivers.ListenConfig{})
+	if err != nil {
+		c.Violation("mc:listen", "Listen failed: "+err.Error(), desc, nil, nil)
+		return
+	}
+	// wait until the pipeline is live, then arm the slow callback
+	deadline := time.Now().Add(waitObserve)
+	atomic.StoreInt32(&slow, 1)
+	for atomic.LoadInt64(&inCallback) == 0 && time.Now().Before(deadline) {
+		outs[0].Send(encMsg(senderProbe, 1))
+		time.Sleep(2 * time.Millisecond)
+	}
+	if atomic.LoadInt64(&inCallback) == 0 {
+		c.Inconclusive("slow-callback history: no message observed within the wait limit")
+		stop()
+		return
+	}
+	var stopRet int64
+	if !guarded(c, h, "stop during a long callback", func() { stop(); stopRet = h.tick() }) {
+		return
+	}
+	c.Count("mc_slow_callback_stops", 1)
+	exit := atomic.LoadInt64(&callbackExit)
+	stillRunning := atomic.LoadInt64(&inCallback) == 1
+	// listening again directly after the returned stop must work
+	got := make(chan struct{}, 64)
+	var stop2 func()
+	if !guarded(c, h, "Listen after stop", func() {
+		stop2, err = ins[0].Listen(func(msg []byte, ts int32) {
+			select {
+			case got <- struct{}{}:
+			default:
+			}
+		}, drivers.ListenConfig{})
+	}) {
+		return
+	}
+	if err != nil {
+		c.Violation("mc:relisten-after-slow-stop", fmt.Sprintf("Listen directly after a stop function returned (the stopped listener's callback was busy for 1.5 s; still running when stop returned: %v; stop returned at stamp %d, callback finished at stamp %d) failed: %v", stillRunning, stopRet, exit, err), desc, "listening again works", err.Error())
+		return
+	}
+	deadline = time.Now().Add(waitObserve)
+	ok := false
+	for !ok && time.Now().Before(deadline) {
+		outs[0].Send(encMsg(senderProbe, 2))
+		select {
+		case <-got:
+			ok = true
+		case <-time.After(2 * time.Millisecond):
+		}
+	}
+	if !ok {
+		c.Inconclusive("slow-callback history: second listener observed nothing within the wait limit")
+	} else {
+		c.Count("mc_relisten_after_slow_stop", 1)
+	}
+	if stop2 != nil {
+		guarded(c, h, "stop of the second listener", stop2)
+	}
+}
+
 // checkMidicatHistory is the offline checker over the recorded event log.
 func checkMidicatHistory(c *mon.Ctx, h *hist, desc map[string]any, nports int) {
 	violate := func(class, msg string, want, got any) {
